@@ -417,7 +417,6 @@ package edwards25519
 //@   ensures [len] len(result) == 32
 //@   ensures [value] le(result, 32) == montu(v)
 
-
 // ---------------------------------------------------------------- cofactor multiplication (validity; the value 8*P is tier G)
 
 //@ func (*Point).MultByCofactor(v, p)
